@@ -42,13 +42,45 @@ def cases(rng, tier, shard, nshards, phase):
     if phase.startswith("search"):
         total *= 2
     for _ in range(total // nshards):
+        if rng.random() < 0.04:
+            yield float_collapse_case(rng)
+            continue
         rule = rng.choice(RULES)
         case = c01.gen_case(rng, rule)
         case["cfg"].pop("transfer", None)
-        if rng.random() < 0.5:     # tie-prone: unit weights
+        k = rng.random()
+        if k < 0.5:     # tie-prone: unit weights
             for b in case["spec"]["b"]:
                 b["w"] = "1"
+        if k < 0.15 and case["spec"]["b"] and not case["spec"]["b"][0]["s"]:
+            # ties on the deciding tally whose tiebreak scores differ by less than float resolution:
+            # huge equal weights plus a few weight-1 ballots
+            n = len(case["spec"]["c"])
+            for b in case["spec"]["b"]:
+                b["w"] = str(10 ** 16)
+            for _ in range(rng.randint(1, 3)):
+                case["spec"]["b"].append({"r": gen.gen_ranking(rng, n, ties=False), "w": "1", "s": []})
+            case["huge"] = True
         yield case
+
+
+def float_collapse_case(rng):
+    """Plurality/SNTV tie on first-place votes at the seat boundary whose Borda scores differ by less than one float
+    ulp: huge equal weights for A>B>.. and B>A>.., weight-1 ballots X>B>A>.. for the other candidates."""
+    n = rng.randint(3, 5)
+    names = gen.gen_names(rng, n)
+    cs = list(range(n))
+    rng.shuffle(cs)
+    a, b, extras = cs[0], cs[1], cs[2:]
+    W = str(10 ** 16 + rng.randint(0, 5) * 2)
+    bs = [{"r": [[a], [b]] + [[x] for x in extras], "w": W, "s": []},
+          {"r": [[b], [a]] + [[x] for x in extras], "w": W, "s": []}]
+    for x in extras:
+        rest = [y for y in extras if y != x]
+        bs.append({"r": [[x], [b], [a]] + [[y] for y in rest], "w": "1", "s": []})
+    rng.shuffle(bs)
+    return {"rule": rng.choice(["Plurality", "SNTV"]), "cfg": {"m": 1, "tiebreak": "borda"},
+            "spec": {"names": names, "b": bs, "c": list(range(n))}, "rs": rng.randint(0, 10 ** 9), "huge": True}
 
 
 def outcome(res, names):
@@ -65,6 +97,8 @@ def run_case(vk, case):
     res = runs[0]
     outs = [outcome(r, names) for r in runs]
     tags = [f"rule:{rule}", f"tiebreak:{cfg.get('tiebreak')}", f"status:{res['status']}"]
+    if case.get("huge"):
+        tags.append("weights:float-collapsing")
     monitors = []
 
     def fail(name, detail, cause="unexplained"):
@@ -75,7 +109,8 @@ def run_case(vk, case):
     if not recorded and not any_known:
         if any(o != outs[0] for o in outs[1:]):
             fail("seed-dependent-without-recorded-tiebreak", f"{outs[0]} vs {[o for o in outs[1:] if o != outs[0]][0]}")
-        calls = [c[0] for r in runs for c in r["log"].calls]
+        # a run that ends in an exception loses the rounds (and their tiebreak records) made before it
+        calls = [c[0] for r in runs for c in r["log"].calls] if all(r["status"] == "ok" for r in runs) else []
         if calls:
             fail("random-primitive-called-without-tiebreak", f"{calls[:5]}")
         tags.append("no-tiebreak")
